@@ -413,7 +413,7 @@ func runC20(c *core.Case) *core.Result {
 					return
 				default:
 				}
-				if unit := rr.Intn(2) == 0; unit {
+				if unit := rr.Intn(4) > 0; unit {
 					// a recognisable all-or-nothing unit (see the reads inside the local transactions)
 					v := fmt.Sprintf("U%d", n)
 					keys := []string{"uA", "uB", "uC", "uD", "uE", "uF"}
